@@ -187,7 +187,12 @@ Fixpoint run01 (mode : N) (p : proto) (two : bool) (keys : list bytes) (steps : 
         (* mode 14: many connections share the backends, only this connection's replies are compared *)
         ((mode =? 14) || (stores_agree now keys l1' d1 && (if two then stores_agree now keys l2' d2 else true))) in
       if negb oracle then (if corr then 3 else 2)
-      else if negb corr then 1
+      else if negb corr then
+        (* model and implementation parted at this step while the oracle still holds: go on from
+           the stores the implementation was OBSERVED to have and see whether the oracle fails on
+           what it does later (then the history is a counterexample, not just a broken tie) *)
+        (if mode =? 14 then 1
+         else match run01 mode p two keys rest d1 d2 s' with 0 => 1 | 1 => 1 | _ => 2 end)
       else run01 mode p two keys rest l1' l2' s'
   end.
 
